@@ -33,6 +33,7 @@ PROBES = ['handler_by_exact_name', 'handler_by_base_class',
           'return_nontext_value', 'return_inside_sub_template',
           'raise_tag_by_name', 'raise_tag_by_expr', 'return_in_raise_body',
           'nested_try_depth3', 'base_exception_through_finally',
+          'empty_handler_selected', 'impostor_class_same_name',
           'error_binding_shadowed_by_inner_handler', 'pair_second_fault_fired']
 RULE = ('programs: seeded ASTs of try/except*/else, try/finally, dtml-raise '
         '(builtin name or computed class, rendered body as message), '
@@ -64,7 +65,7 @@ ASSUMPTIONS = [
 ]
 
 FAULT_CLASSES = ['EA', 'EAB', 'EABC', 'EX', 'EMI', 'KeyError', 'ValueError',
-                 'IndexError']
+                 'IndexError', 'EAB~', 'EX~']
 HANDLER_POOL = ['EA', 'EAB', 'EABC', 'EX', 'EMI', 'KeyError', 'LookupError',
                 'ValueError', 'IndexError', 'Exception']
 PLAIN = {'error_type': 'OUTER', 'X_EA': E.EA, 'X_EAB': E.EAB,
@@ -154,7 +155,7 @@ class Gen:
         if t == 'site':
             s = self.site('NX')
             self.script[s] = {'rot': [{'exc': c} for c in r.sample(
-                ['EA', 'EAB', 'EABC', 'EX', 'EMI', 'ValueError'],
+                ['EA', 'EAB', 'EABC', 'EX', 'EMI', 'ValueError', 'EAB~', 'EX~'],
                 r.choice([1, 2, 3]))]}
             t = {'site': s}
         return {'k': 'raise', 'type': t,
@@ -212,6 +213,8 @@ class Gen:
         for _ in range(r.choice([1, 1, 2, 2, 3])):
             hs.append({'names': r.sample(HANDLER_POOL, r.choice([1, 1, 1, 2])),
                        'body': self.body(depth + 1, td + 1)})
+            if r.random() < 0.08:       # a handler with a really empty body
+                hs[-1]['body'] = {'b': self.bid(), 'n': []}
         if r.random() < 0.3:
             hs.append({'names': [], 'body': self.body(depth + 1, td + 1)})
         return {'k': 'try', 'body': self.body(depth + 1, td + 1, minn=1),
@@ -430,6 +433,10 @@ class ProbeModel(M.Model):
                     self.hits.add('handler_via_multiple_inheritance')
             if j > 0:
                 self.hits.add('second_handler_selected')
+            if not h['body']['n']:
+                self.hits.add('empty_handler_selected')
+            if type(e) in (E.EAB_X, E.EX_A):
+                self.hits.add('impostor_class_same_name')
             self.hits.add('else_skipped')
             if any('error_value' in f for f in self.frames):
                 self.hits.add('error_binding_shadowed_by_inner_handler')
